@@ -55,7 +55,7 @@ def tasks(tier):
     # the hand-over uses ParticleArray.extract_particles / remove_particles /
     # align_particles: their contracts (C06) are re-proved here
     return ['zones', 'wiring', 'inlet', 'outlet', 'mirror', 'length',
-            'canary',
+            'steppers', 'canary',
             'dep:C06:extract', 'dep:C06:remove', 'dep:C06:align',
             'dep:C06:add']
 
@@ -78,6 +78,8 @@ def run_task(task, ctx):
         return task_outlet(ctx, repo, m)
     if task == 'mirror':
         return task_mirror(ctx, repo)
+    if task == 'steppers':
+        return task_steppers(ctx, repo)
     if task == 'canary':
         d = z3.Real('cd')
         ctx.canary('canary.must_fail', Obligation('c', [d > 0], d > 1))
@@ -290,8 +292,11 @@ def mk_pa(name, st_events, extra=None):
             return SymObject(None, dict(
                 x=('col', 'x'), y=('col', 'y'), z=('col', 'z'),
                 u=('col', 'u'),
-                get_property_arrays=Native(lambda e, s_, a_, k_, n_:
-                                           {'__props__': name})), 'pa_add')
+                get_property_arrays=Native(
+                    lambda e, s_, a_, k_, n_: {
+                        '__props__': name, 'x': a_[0].attrs['x'],
+                        'y': a_[0].attrs['y'], 'z': a_[0].attrs['z'],
+                        'u': a_[0].attrs['u']}, bind=True)), 'pa_add')
         return Native(h)
     attrs = dict(name=name, ioid=IoidArr(name), x=PropArr(name + '.x'),
                  y=PropArr(name + '.y'), z=PropArr(name + '.z'),
@@ -309,6 +314,9 @@ class UpdExec(Executor):
     def binop(self, op, a, b, st, node):
         if isinstance(a, tuple) and a and a[0] == 'view':
             return ('upd', a[1], a[2], type(op).__name__, b)
+        if isinstance(b, tuple) and b and b[0] == 'col' and \
+                not isinstance(a, tuple):
+            return ('scaled', type(op).__name__, a, b)
         return Executor.binop(self, op, a, b, st, node)
 
 
@@ -316,7 +324,8 @@ def ext_where(ex, st, args, kwargs, node):
     return (Idx(args[0]),)
 
 
-def run_update(repo, m, mod_cls, stage_active, with_ghost=True, mro=None):
+def run_update(repo, m, mod_cls, stage_active, with_ghost=True, mro=None,
+               more_contracts=None):
     modname, cls = mod_cls
     mm = repo.module(modname)
     r = repo.find_method(modname, cls, 'update')
@@ -350,6 +359,7 @@ def run_update(repo, m, mod_cls, stage_active, with_ghost=True, mro=None):
         '%s._create_io_eval' % r[1].name]
     ex.contracts['OutletBase._create_io_eval'] = ex.contracts[
         'InletBase._create_io_eval']
+    ex.contracts.update(more_contracts or {})
     outs = ex.exec_function(fn, dict(self=obj, time=z3.Real('time'),
                                      dt=z3.Real('dt'),
                                      stage=1 if stage_active else 2))
@@ -527,6 +537,83 @@ def task_outlet(ctx, repo, m):
     ctx.prove('outlet.base.update', obs)
 
 
+REPLAY_MIRROR = r"""
+import json, sys, os, importlib.util
+import numpy as np
+d = json.load(sys.stdin)
+root = d['root']
+sys.path[:] = [p for p in sys.path if os.path.abspath(p or os.getcwd()) != root]
+import pysph.sph.bc, pysph.sph.bc.mirror
+def load(modname, relpath):
+    spec = importlib.util.spec_from_file_location(modname, os.path.join(root, relpath))
+    mod = importlib.util.module_from_spec(spec); sys.modules[modname] = mod
+    spec.loader.exec_module(mod)
+    parent, _, child = modname.rpartition('.'); setattr(sys.modules[parent], child, mod)
+    return mod
+iom_mod = load('pysph.sph.bc.inlet_outlet_manager', 'pysph/sph/bc/inlet_outlet_manager.py')
+out_mod = load('pysph.sph.bc.mirror.outlet', 'pysph/sph/bc/mirror/outlet.py')
+from pysph.base.utils import get_particle_array
+from pysph.base.kernels import QuinticSpline
+bad = None
+for has_ghost in (False, True):
+    dx = 0.1
+    fluid = get_particle_array(name='fluid', x=-dx / 2 - dx * np.arange(12)[::-1], m=1.0, h=1.5 * dx, u=1.0)
+    outlet = get_particle_array(name='outlet', x=dx / 2 + dx * np.arange(5), m=1.0, h=1.5 * dx, u=1.0)
+    ghost = get_particle_array(name='ghost_outlet', x=-dx / 2 - dx * np.arange(5), m=1.0, h=1.5 * dx, u=-1.0)
+    arrs = [fluid, outlet] + ([ghost] if has_ghost else [])
+    for pa in [fluid, outlet, ghost]:
+        for p in ('ioid', 'disp', 'pid9'):
+            pa.add_property(p)
+    fluid.pid9[:] = np.arange(12); outlet.pid9[:] = 100 + np.arange(5); ghost.pid9[:] = 100 + np.arange(5)
+    props = ['x', 'y', 'z', 'u', 'v', 'w', 'm', 'h', 'rho', 'p', 'ioid', 'pid9']
+    info = iom_mod.OutletInfo(pa_name='outlet', normal=[1.0, 0.0, 0.0], refpoint=[0.0, 0.0, 0.0], has_ghost=has_ghost, update_cls=out_mod.Outlet, props_to_copy=props)
+    info.length = 0.5; info.dx = dx
+    try:
+        io = out_mod.Outlet(outlet, fluid, info, QuinticSpline(dim=1), dim=1, active_stages=[1], ghost_pa=ghost if has_ghost else None)
+    except Exception as e:
+        bad = dict(error='setup %r' % (e,)); break
+    pos = {}
+    for i, x in zip(fluid.pid9, fluid.x): pos[int(i)] = x
+    for i, x in zip(outlet.pid9, outlet.x): pos[int(i)] = x
+    crossed = set()
+    for k, dd in enumerate([0.03, 0.12, 0.25, 0.04, 0.2, 0.11, 0.3, 0.07]):
+        for pa in arrs:
+            pa.x[:] = pa.x + (dd if pa is not ghost else -dd)
+        for i in pos: pos[i] += dd
+        io.update(0.0, 0.0, 1)
+        for i, x in pos.items():
+            if i < 100 and x > 1e-6: crossed.add(i)
+        alive = sorted(i for i, x in pos.items() if x - 0.5 <= 1e-6)
+        fp = sorted(int(i) for i in fluid.pid9); op = sorted(int(i) for i in outlet.pid9)
+        allp = fp + op
+        if len(set(allp)) != len(allp):
+            bad = dict(has_ghost=has_ghost, step=k, problem='particle present more than once', ids=[i for i in set(allp) if allp.count(i) > 1]); break
+        if len(fp) != 12 - len(crossed):
+            bad = dict(has_ghost=has_ghost, step=k, problem='fluid count %d != 12 - %d left' % (len(fp), len(crossed))); break
+        if sorted(set(allp)) != alive:
+            bad = dict(has_ghost=has_ghost, step=k, problem='ids present differ from expected', present=sorted(set(allp)), expected=alive); break
+        if has_ghost:
+            gp = sorted(int(i) for i in ghost.pid9)
+            if gp != op:
+                bad = dict(has_ghost=True, step=k, problem='ghost ids differ from outlet ids', ghost=gp, outlet=op); break
+    if bad: break
+print(json.dumps(dict(bad=bad)))
+"""
+
+
+def replay_mirror(model, ob):
+    from pyvc.repo import REPO_ROOT
+    try:
+        r = native.run_venv(REPLAY_MIRROR, dict(root=REPO_ROOT), timeout=900)
+    except Exception as e:
+        return dict(reproduced=False, note=str(e)[-400:])
+    if r['bad'] and 'error' not in r['bad']:
+        return dict(reproduced=True, how='real mirror Outlet.update on '
+                    'compiled particle arrays, with and without ghost array',
+                    **r['bad'])
+    return dict(reproduced=False, note=str(r['bad']))
+
+
 def task_mirror(ctx, repo):
     modname = 'pysph.sph.bc.mirror.outlet'
     mm = repo.module(modname)
@@ -554,6 +641,85 @@ def task_mirror(ctx, repo):
         obs.append(Obligation('ghost.%d.reflected' % i, o.pc + [unit],
                               d2 == -d, W, extra=dict(backends=['z3'])))
     ctx.prove('mirror.ghost_is_reflection', obs, use_nf=False)
+    # update(): the trace of array operations on every path, with and
+    # without a ghost array, for any number of leaving particles
+    from pyvc.symexec import CalleeContract
+    gh = CalleeContract(lambda e, s_, a, k, n_: (
+        ('ghostpos', 0, tuple(a[-3:])), ('ghostpos', 1, tuple(a[-3:])),
+        ('ghostpos', 2, tuple(a[-3:]))))
+    tobs = []
+    m0 = repo.module(MOD)
+    for with_ghost in (True, False):
+        _, fn_u, ex_u, outs_u, w = run_update(
+            repo, m0, (modname, 'Outlet'), True, with_ghost=with_ghost,
+            more_contracts={'Outlet._get_ghost_xyz': gh})
+        nO = z3.Int('n_fluid')
+        for i, o in enumerate(outs_u):
+            tr = o.state.trace
+            names = [e[0] for e in tr]
+            tag = 'mirror.trace.%s.%d' % ('ghost' if with_ghost else
+                                          'noghost', i)
+            sol = z3.Solver()
+            sol.add(*[S.to_z3(c) for c in o.pc])
+            sol.add(nO > 0)
+            some_leave = sol.check() != z3.unsat
+            ghost_add = with_ghost and some_leave
+            want_names = ['io_eval.update', 'io_eval.evaluate', 'extract',
+                          'add'] + (['add'] if ghost_add else []) + \
+                ['remove', 'remove'] + (['remove'] if with_ghost else []) + \
+                ['callback']
+            ok = names == want_names
+            why = 'events %s, wanted %s' % (names, want_names)
+            if ok:
+                ext, add1 = tr[2], tr[3]
+                k = 4
+                addg = None
+                if ghost_add:
+                    addg = tr[k]
+                    k += 1
+                rm1, rm2 = tr[k], tr[k + 1]
+                rmg = tr[k + 2] if with_ghost else None
+                O = ext[2][0]
+                cols = ('col', 'x'), ('col', 'y'), ('col', 'z')
+                ok = (ext[1] == 'fluid' and isinstance(O, Idx) and
+                      O.cond == Cond('fluid', '==', 1) and
+                      ext[3].get('props') == ['x', 'rho'] and
+                      add1[1] == 'zone' and
+                      add1[3].get('__props__') == 'fluid' and
+                      tuple(add1[3].get(c) for c in 'xyz') == cols and
+                      add1[3].get('u') == ('col', 'u') and
+                      rm1[1] == 'fluid' and rm1[2][0] is O and
+                      rm2[1] == 'zone' and isinstance(rm2[2][0], Idx) and
+                      rm2[2][0].cond == Cond('zone', '==', 2))
+                why = 'arguments %r %r %r %r' % (ext[2:], add1[3], rm1[2],
+                                                 rm2[2])
+                if ok and addg is not None:
+                    kw = addg[3]
+                    ok = (addg[1] == 'ghost' and
+                          all(kw.get(c) == ('ghostpos', j, cols)
+                              for j, c in enumerate('xyz')) and
+                          kw.get('u') in (('scaled', 'Mult', -1.0,
+                                           ('col', 'u')),
+                                          ('scaled', 'Mult', -1,
+                                           ('col', 'u'))))
+                    why = 'ghost copy %r' % (kw,)
+                if ok and rmg is not None:
+                    ok = rmg[1] == 'ghost' and rmg[2][0] is rm2[2][0]
+                    why = 'ghost removal %r' % (rmg[2],)
+            tobs.append(Obligation(tag, o.pc, z3.BoolVal(bool(ok)), W,
+                                   extra=dict(why=why)))
+        if not outs_u:
+            tobs.append(Obligation('mirror.trace.nopaths', [],
+                                   z3.BoolVal(False), W))
+    _, fn_u, ex_u, outs_u, w = run_update(
+        repo, m0, (modname, 'Outlet'), False,
+        more_contracts={'Outlet._get_ghost_xyz': gh})
+    for i, o in enumerate(outs_u):
+        quiet = [e for e in o.state.trace if e[0] in ('extract', 'remove',
+                                                      'add', 'callback')]
+        tobs.append(Obligation('mirror.inactive.%d' % i, o.pc,
+                               z3.BoolVal(not quiet), W))
+    ctx.prove('mirror.update.trace', tobs, replay=replay_mirror)
     # update(): structural trace (order of array operations)
     fu = mm.methods('Outlet')['update']
     ctx.function(mm, fu, 'Outlet.update')
@@ -580,6 +746,95 @@ def task_mirror(ctx, repo):
         '-1. *', '-1.0 *')
     ctx.prove('mirror.update.order', [Obligation(
         'order', [], z3.BoolVal(bool(ok)), W)], info=str(seq)[:400])
+
+
+FAMILIES = ('hybrid', 'mirror', 'characteristic', 'donothing', 'mod_donothing')
+
+
+def task_steppers(ctx, repo):
+    """<family>.SimpleInletOutlet.get_stepper: whenever it hands out zone
+    steppers (the zone particles are then moved in the corrector stage of the
+    integrator) -- and on the same branch even when the simulation has no
+    inlet or no outlet -- the manager's update stage is the stage after which
+    the zone particles have moved, `active_stages == [2]`; the answer does not
+    depend on how many inlets / outlets there are; every inlet gets an
+    InletStep and every outlet an OutletStep."""
+    from pyvc.symexec import _ClassRef
+    for fam in FAMILIES:
+        modname = 'pysph.sph.bc.%s.simple_inlet_outlet' % fam
+        try:
+            mm = repo.module(modname)
+            fn = mm.methods('SimpleInletOutlet')['get_stepper']
+        except Exception:
+            continue
+        W = mm.path
+        ctx.function(mm, fn, '%s.SimpleInletOutlet.get_stepper' % fam)
+        obs = []
+        stages_by_branch = {}
+        for ni, no, gi, go in [(a, b, c, d) for a in (0, 1, 2)
+                               for b in (0, 1, 2) for c in (0, 1)
+                               for d in (0, 1)]:
+            if True:
+                isE = z3.Bool('scheme_is_expected')
+
+                def ext_isinstance(ex, st, a, k, n):
+                    return isE
+
+                def mk(kind):
+                    return lambda ex, st, a, k, n: ('stepper', kind)
+                ex = Executor(repo, mm, qualname='SimpleInletOutlet.'
+                              'get_stepper', merge=False,
+                              externals={'isinstance': ext_isinstance,
+                                         'InletStep': mk('inlet'),
+                                         'OutletStep': mk('outlet'),
+                                         'OutletStepWithUhat': mk('outlet')})
+                inl = ['in%d' % i for i in range(ni)]
+                outl = ['out%d' % i for i in range(no)]
+                ginl = ['gin%d' % i for i in range(gi)]
+                goutl = ['gout%d' % i for i in range(go)]
+                obj = SymObject('SimpleInletOutlet', dict(
+                    inlets=list(inl), outlets=list(outl),
+                    ghost_inlets=list(ginl), ghost_outlets=list(goutl),
+                    active_stages=['unset']), 'self')
+                obj.module = modname
+                pec = ex.eval(ast.parse('PECIntegrator', mode='eval').body,
+                              State())
+                sch = SymObject(None, {}, 'scheme')
+                outs = ex.exec_function(fn, dict(self=obj, scheme=sch,
+                                                 cls=pec))
+                tag = 'n%d.%d.%d.%d' % (ni, no, gi, go)
+                if not outs:
+                    obs.append(Obligation(tag + '.nopath', [],
+                                          z3.BoolVal(False), W))
+                for i, o in enumerate(outs):
+                    st_ = o.state.env['self'].attrs['active_stages']
+                    val = o.value
+                    ok = o.kind == 'return' and isinstance(val, dict)
+                    why = 'returned %r' % (val,)
+                    sol = z3.Solver()
+                    sol.add(*[S.to_z3(c) for c in o.pc])
+                    sol.add(isE)
+                    on_branch = sol.check() != z3.unsat
+                    if ok and on_branch:
+                        want = dict([(k, ('stepper', 'inlet')) for k in inl] +
+                                    [(k, ('stepper', 'outlet')) for k in outl])
+                        # ghost zones: a stepper is optional (the families
+                        # differ), but never of the other kind
+                        opt = dict([(k, ('stepper', 'outlet')) for k in goutl]
+                                   + [(k, ('stepper', 'inlet')) for k in ginl])
+                        ok = (all(val.get(k) == v for k, v in want.items())
+                              and all(k in want or opt.get(k) == v
+                                      for k, v in val.items())
+                              and st_ == [2])
+                        why = 'steppers %r, active_stages %r' % (val, st_)
+                    elif ok:
+                        ok = val == {} and st_ == ['unset']
+                        why = ('other integrator/scheme: steppers %r, '
+                               'active_stages %r' % (val, st_))
+                    obs.append(Obligation('%s.path%d' % (tag, i), o.pc,
+                                          z3.BoolVal(bool(ok)), W,
+                                          extra=dict(why=why)))
+        ctx.prove('steppers.%s.active_stage_follows_steppers' % fam, obs)
 
 
 # ---------------------------------------------------------------- zone length
